@@ -98,37 +98,35 @@ theorem C01_frame_wrapdec (cfg : SubCfg) (st : StereoCfg) (chans : List (List In
 
 /-- Every frame `encode_frame` returns is serialisable, its reported size is its written
 size, and it lies within the limits of the repository's own parser (`Repo.FrameOk`, the hypothesis of
-C15), provided the oracle's LPC orders respect the parser's limit `MAX_LPC_ORDER = 24` (which
-`Encoder::verify` enforces on `lpc_order`, `C07_verified_cfg`). -/
+C15): `OEvent.Ok` bounds the oracle's LPC orders by the parser's limit `MAX_LPC_ORDER = 24` (which
+`Encoder::verify` enforces on `lpc_order`, `C07_verified_cfg`; the former separate hypothesis is gone). -/
 theorem C01_frame_parserOk (cfg : SubCfg) (st : StereoCfg) (chans : List (List Int)) (bps rate number n : Nat)
     (log log' : List OEvent) (f : Frame)
     (hch : 1 ≤ chans.length ∧ chans.length ≤ 8) (hlen : ∀ c ∈ chans, c.length = n) (hn : 1 ≤ n ∧ n < 2 ^ 16)
     (hb : 1 ≤ bps ∧ bps ≤ 24) (hx : ∀ c ∈ chans, ∀ x ∈ c, SubFrame.inRange bps x = true)
     (hnum : number < 2 ^ 32) (hmax : cfg.maxP ≤ 14) (hlog : ∀ e ∈ log, e.Ok)
-    (hord : ∀ c sh p, OEvent.qlpc c sh p ∈ log → c.length ≤ 24)
     (h : encodeFrame cfg st chans bps rate number log = some (f, log'))
     (info : StreamInfo) (hinfo : info.channels = chans.length ∧ info.bps = bps) :
     Repo.FrameOk info f ∧ ∃ fb, f.bits rfcCrc8 rfcCrc16 = some fb ∧ f.count = some fb.length := by
-  obtain ⟨h1, h2⟩ := Wrap.frame_good cfg st chans bps rate number n log log' f hch hlen hn hb hx hnum hmax hlog 24 hord h
-    info hinfo
+  obtain ⟨h1, h2⟩ := Wrap.frame_good cfg st chans bps rate number n log log' f hch hlen hn hb hx hnum hmax hlog 24
+    (OEvent.ok_order_le log hlog) h info hinfo
   exact ⟨h1 (Nat.le_refl _), h2⟩
 
 /-- **C01, frame, the repository's own read path.** `Frame::write`, then `parser::frame` (with or without
 CRC check, arbitrary bytes following), then `Frame::decode()` of the release build: the parser returns
 exactly the emitted frame and the remaining bytes, and the decoder returns exactly the interleaved input —
-for every oracle log satisfying `OEvent.Ok` with LPC orders at most 24. -/
+for every oracle log satisfying `OEvent.Ok` (which includes: LPC orders at most 24). -/
 theorem C01_frame_wrap_roundtrip (cfg : SubCfg) (st : StereoCfg) (chans : List (List Int)) (bps rate number n : Nat)
     (log log' : List OEvent) (f : Frame)
     (hch : 1 ≤ chans.length ∧ chans.length ≤ 8) (hlen : ∀ c ∈ chans, c.length = n) (hn : 1 ≤ n ∧ n < 2 ^ 16)
     (hb : 1 ≤ bps ∧ bps ≤ 24) (hx : ∀ c ∈ chans, ∀ x ∈ c, SubFrame.inRange bps x = true)
     (hnum : number < 2 ^ 32) (hmax : cfg.maxP ≤ 14) (hlog : ∀ e ∈ log, e.Ok)
-    (hord : ∀ c sh p, OEvent.qlpc c sh p ∈ log → c.length ≤ 24)
     (h : encodeFrame cfg st chans bps rate number log = some (f, log'))
     (info : StreamInfo) (hinfo : info.channels = chans.length ∧ info.bps = bps) (checkCrc : Bool) (more : List Nat) :
     ∃ fb, f.bits rfcCrc8 rfcCrc16 = some fb ∧
       Repo.parseFrame info checkCrc (packBytes fb ++ more) = .ok (f, more) ∧
       Repo.decodeFrameMode false f = .ok (Rfc.interleave chans) :=
-  Wrap.frame_wrap_roundtrip cfg st chans bps rate number n log log' f hch hlen hn hb hx hnum hmax hlog hord h info hinfo
+  Wrap.frame_wrap_roundtrip cfg st chans bps rate number n log log' f hch hlen hn hb hx hnum hmax hlog h info hinfo
     checkCrc more
 
 /-! ### stream level -/
@@ -234,10 +232,7 @@ example : ∃ f log' fb,
   | some p =>
     obtain ⟨f, log'⟩ := p
     obtain ⟨fb, h1, h2, h3⟩ := C01_frame_wrap_roundtrip _ _ _ 24 44100 7 64 _ log' f (by decide) (by decide) (by decide)
-      (by decide) (by decide) (by decide) (by decide) (by decide) (by
-        intro c sh p hm
-        simp only [List.mem_cons, OEvent.qlpc.injEq, List.not_mem_nil, or_false] at hm
-        rcases hm with ⟨rfl, _, _⟩ | ⟨rfl, _, _⟩ | ⟨rfl, _, _⟩ | ⟨rfl, _, _⟩ <;> decide) h
+      (by decide) (by decide) (by decide) (by decide) (by decide) h
       ⟨64, 64, 0, 0, 44100, 2, 24, 64, []⟩ (by decide) true [9]
     exact ⟨f, log', fb, rfl, h1, h2, h3⟩
 
